@@ -130,7 +130,7 @@ PROPS = {
              "arguments compared before/after, identical calls compared bit-for-bit.",
              "histories of 3..7 operations from {solve, list solve, solve with a bad source, other dimension, call, raytrace, "
              "representation change} on {object, re-built object, copy, deepcopy}", oracle_n=(40, 300), props="props/C17.v"),
-    "C18": P(GS + ["Interp2d", "Interp3d"], SOLVER2 + INTERP, "proof",
+    "C18": P(GS + ["Interp2d", "Interp3d", "Vinterp2d", "Vinterp3d"], SOLVER2 + INTERP + VINTERP, "proof",
              "Theorems (R): symmetry of the 2D local operators under exchanging axes; the four copies of the 2D source-line initialisation are mirror / "
              "transposition images of one another (InitSym); one 3D node update of the generated code is equivariant under all axis relabellings (Sym3d); "
              "interpolator axis-swap equivariance. Solver-level "
